@@ -9,6 +9,8 @@ quadruple substitutions); the oracle is an independent reference codec.
 
 Real: bitcoin.base58, bitcoin.segwit_addr, bitcoin.bech32.   Simulated: the channel.
 """
+import json
+import os
 import copy
 import itertools
 
@@ -36,6 +38,13 @@ def confusables(c):
         out.append(lookalike[c])
     return out
 CS = RB32.CHARSET
+
+
+try:
+    with open(os.path.join(os.path.dirname(os.path.abspath(__file__)), 'data', 'selfcheck_payloads.json')) as _f:
+        SELFCHECK = json.load(_f)
+except (OSError, ValueError):
+    SELFCHECK = []
 
 
 class Chan(Engine):
@@ -142,6 +151,11 @@ class Chan(Engine):
                 P({'op': 'str', 'text': '1' * nz + ('2g' if nz % 2 else ''), 'bad': '0', 'pos': nz // 2})
             P({'op': 'b58check', 'version': 0, 'payload': '00' * 1200, 'multi': [], 'light': True})
             P({'op': 'b58check', 'version': 0, 'payload': '00' * 1100 + 'ff' * 3, 'multi': [], 'light': True})
+            # payloads whose four check bytes RE-OCCUR inside the checked bytes (one in 2^32/length has that; found
+            # once by tools/grind_selfcheck.py): a self-referential coincidence for any verification that searches
+            # for the check bytes instead of comparing the tail
+            for e in SELFCHECK:
+                P({'op': 'b58check', 'version': e['version'], 'payload': e['payload'], 'multi': [], 'light': len(e['payload']) > 100})
         else:
             # every program length 2..40 for versions 1..16 at codec level, three prefixes
             for hrp in ('bc', 'tb', 'bcrt'):
@@ -600,7 +614,14 @@ class Chan(Engine):
         # --- double substitutions: exhaustive or seeded
         if a['doubles'] == 'all':
             cnt = 0
-            for p, q in itertools.combinations(data_pos, 2):
+            pairs = list(itertools.combinations(data_pos, 2))
+            if len(pairs) > 520:
+                # all 961 substitution pairs at every k-th position pair (about half a million decodings per
+                # address: a whole long address would be minutes of work in one run)
+                stride = (len(pairs) + 519) // 520
+                pairs = pairs[(len(text) + len(hrp)) % stride::stride]
+                ctx.probe('doubles-exhaustive-over-a-slice-of-position-pairs')
+            for p, q in pairs:
                 for c in CS:
                     if c == text[p]:
                         continue
@@ -684,6 +705,20 @@ class Chan(Engine):
         except Exception as e:
             ok = False
         ctx.check(ok, 'C11.codec', 'CBech32Data does not round-trip %r under %s' % (text, chain))
+        # the program handed to from_bytes in every flavour a caller may hold it in - among them the library's own
+        # address objects, of this and of ANOTHER witness version (a program just decoded from one address and
+        # re-wrapped under another version)
+        ver, prog = orig
+        for flav, val in (('bytes', bytes(prog)), ('bytearray', bytearray(prog)), ('CBech32Data of the same version', B32.CBech32Data.from_bytes(ver, prog)),
+                          ('CBech32Data of version %d' % ((ver + 1) % 17), B32.CBech32Data.from_bytes((ver + 1) % 17, prog)),
+                          ('CBech32Data of version 16', B32.CBech32Data.from_bytes(16, prog))):
+            try:
+                o2 = B32.CBech32Data.from_bytes(ver, val)
+                got = (o2.witver, bytes(o2), str(o2))
+            except Exception as e:           # noqa: BLE001
+                got = 'raised %s' % type(e).__name__
+            ctx.check(got == (ver, prog, text), 'C11.codec', 'CBech32Data.from_bytes(%d, <%d-byte program held as %s>) gives %r, BIP173 gives %r' % (ver, len(prog), flav, got, text),
+                      flavour=flav.split(' of ')[0])
         try:
             B32.CBech32Data(text[:-1] + ('q' if text[-1] != 'q' else 'p'))
             ctx.check(False, 'C11.detect<=4', 'CBech32Data accepted an address with its last character substituted')
